@@ -30,10 +30,22 @@ the zombie transition unpauses. -/
 theorem C09_cleanup_unpauses (s : Sys) (c : Cid) : ((cleanup s c).ctx c).paused = false := by
   unfold cleanup; simp
 
-theorem C09_restart_unpauses (s : Sys) (c : Cid) : ((handleRestart s c).ctx c).paused = false := by
-  by_cases h : (s.ctx c).hooks / 4 % 2 = 1 ∨ (s.ctx c).hooks / 2 % 2 = 1
-  · simp [handleRestart, h, upd, say]
-  · simp [handleRestart, h, upd, say]
+theorem C09_zombie_transition_unpauses (s : Sys) (c : Cid)
+    (h : (s.ctx c).hooks / 4 % 2 = 1 ∨ (s.ctx c).hooks / 2 % 2 = 1) : ((handleRestart s c).ctx c).paused = false := by
+  simp [handleRestart, h, upd, say]
+
+/-- Restart completion: the new incarnation starts on an unpaused mailbox (its OnLaunch runs in
+that state; only a failure of that very OnLaunch can pause it again, through supervision). -/
+theorem C09_restart_unpauses (s : Sys) (c : Cid) (hf : s.fixedLaunch = true)
+    (h : ¬ ((s.ctx c).hooks / 4 % 2 = 1 ∨ (s.ctx c).hooks / 2 % 2 = 1)) :
+    ∃ s3, handleRestart s c = execRecover s3 c (s.ctx c).script { id := 0, sys := true, sender := some c, msg := .onLaunch } .onLaunch ∧
+      (s3.ctx c).paused = false ∧ (s3.ctx c).state = .running := by
+  refine ⟨say (upd (upd (upd s c (fun x => { x with behaviors := [x.script] })) c
+      (fun x => { x with restarting := none, state := .running, inc := x.inc + 1 })) c
+      (fun x => { x with paused := false })) s!"restarted:{c}", ?_, ?_, ?_⟩
+  · simp only [handleRestart, h, if_false, hf, if_true]
+  · simp [upd, say]
+  · simp [upd, say]
 
 /-- Resume (decision 5) sends a resume command to every target of every level of the
 escalation chain, as a system message. -/
